@@ -82,6 +82,19 @@ Theorem C04gen_never_crashes :
   e = OutOfDraws \/ e = OutOfFuel.
 Proof. exact simple_exec_never_crashes. Qed.
 
+(* the generic counterpart of "an unbounded run ends with no infected node": with tmax = Inf the
+   run returns only when nothing is enabled any more -- in the final state every spec edge's
+   rate x (sum of the weights of its enabled actors) is zero *)
+Theorem C04gen_unbounded_run_ends_with_nothing_enabled :
+  forall g (Hg : wfg2 g) ic rstat tmin tmax full sortable spont induced fuel ds out tr,
+  Forall (sp_tr_ok g) spont -> Forall (in_tr_ok g) induced -> tmax = None ->
+  exec (simple g sortable spont induced ic rstat tmin tmax full fuel) ds [] = (Ok out, tr) ->
+  exists sp inn l1 t' s',
+    srun g rstat tmax full tmin (start g ic rstat tmin sp inn) l1 t' s' /\ finish g ic rstat tmin full s' = Ok out /\
+    SInv g s' /\ ~ 0 < total_rate s' /\
+    sumQ (map (fun sl => tr_rate (sl_tr sl) * sumQ (map (wgt sl) (items (sl_pot sl)))) (slots s')) <= 0.
+Proof. exact simple_exec_unbounded. Qed.
+
 (* ---- Gillespie_complex_contagion: the same checker accepts the rows of every run, every draw
    script, with "any status of the model's status universe [sts] to any other" as the moves (the
    user's transition_choice decides); hypotheses = the domain of C15 plus: the chooser and the
@@ -131,6 +144,7 @@ Print Assumptions C04gen_moves_are_spec_edges.
 Print Assumptions C04gen_rows_are_running_census_of_one_log.
 Print Assumptions C04gen_census.
 Print Assumptions C04gen_never_crashes.
+Print Assumptions C04gen_unbounded_run_ends_with_nothing_enabled.
 Print Assumptions C04gen_complex_rows_well_formed.
 Print Assumptions C04gen_complex_example.
 Print Assumptions C04gen_example.
